@@ -4,11 +4,13 @@ import (
 	"fmt"
 	"go/token"
 	"go/types"
+	"sort"
 	"strings"
 
 	"golang.org/x/tools/go/ssa"
 
 	"ogenverif/internal/core"
+	"ogenverif/internal/effects"
 )
 
 func init() {
@@ -285,7 +287,10 @@ func runC19(c *core.Ctx) error {
 		for _, fn := range core.PkgFuncs(prog.SSA, prog.ByPath[path]) {
 			checkPoolDiscipline(c, r5, fn)
 		}
+		checkSyncPoolDiscipline(c, r5, prog, path, core.ShortPkg(path))
 	}
+
+	checkSharedReceiversReadOnly(c, r4, prog)
 
 	r6 := c.NewRule("R19.6", "S1+S2", "function values that outlive their creator do not store to captured variables", 3)
 	r7 := c.NewRule("R19.7", "S1+S2", "package-level slices and maps are not handed out whole (their backing store stays private to read-only code)", 3)
@@ -351,6 +356,7 @@ func runC19(c *core.Ctx) error {
 		for _, fn := range core.PkgFuncs(ex.Prog.SSA, pkg) {
 			checkPoolDiscipline(c, r5, fn)
 		}
+		checkSyncPoolDiscipline(c, r5, ex.Prog, fx.PkgPath, "S2:"+fx.Name)
 		checkEscapingClosures(c, r6, ex.Prog, fx.PkgPath, "S2:"+fx.Name)
 		checkGlobalRefEscape(c, r7, ex.Prog, fx.PkgPath, "S2:"+fx.Name)
 	}
@@ -800,4 +806,254 @@ func checkPoolDiscipline(c *core.Ctx, r *core.Rule, fn *ssa.Function) {
 			r.Pass(fmt.Sprintf("%s at %s: no use after a non-deferred Put, not stored away", key, c.Pos(cl.Pos())))
 		}
 	}
+}
+
+// checkSyncPoolDiscipline (R19.5, any sync.Pool): an object taken from a
+// sync.Pool (directly or through a one-line getter) and given back in the same
+// function (directly, deferred, or through a putter) lends its memory only for
+// the duration of the call. Slices obtained from it (Bytes(), re-slices) must
+// not be stored into heap objects, returned, or boxed into an interface: after
+// the Put another goroutine owns and overwrites that memory.
+func checkSyncPoolDiscipline(c *core.Ctx, r *core.Rule, prog *core.Prog, pkgPath, label string) {
+	pkg := prog.ByPath[pkgPath]
+	if pkg == nil {
+		return
+	}
+	isPoolCall := func(cc *ssa.CallCommon, m string) bool {
+		return core.CalleeName(cc) == "(*sync.Pool)."+m
+	}
+	var fromPoolGet func(v ssa.Value, depth int) bool
+	getters := map[*ssa.Function]bool{}
+	putters := map[*ssa.Function]bool{}
+	fromPoolGet = func(v ssa.Value, depth int) bool {
+		if depth > 4 {
+			return false
+		}
+		switch x := v.(type) {
+		case *ssa.Call:
+			if isPoolCall(x.Common(), "Get") {
+				return true
+			}
+			if g := x.Common().StaticCallee(); g != nil && getters[g] {
+				return true
+			}
+		case *ssa.TypeAssert:
+			return fromPoolGet(x.X, depth+1)
+		case *ssa.ChangeType:
+			return fromPoolGet(x.X, depth+1)
+		case *ssa.Extract:
+			return fromPoolGet(x.Tuple, depth+1)
+		}
+		return false
+	}
+	fns := core.PkgFuncs(prog.SSA, pkg)
+	for iter := 0; iter < 2; iter++ {
+		for _, fn := range fns {
+			for _, b := range fn.Blocks {
+				if ret, ok := b.Instrs[len(b.Instrs)-1].(*ssa.Return); ok && len(ret.Results) == 1 && fromPoolGet(ret.Results[0], 0) {
+					getters[fn] = true
+				}
+			}
+			for _, call := range core.Calls(fn) {
+				if isPoolCall(call.Common(), "Put") && len(call.Common().Args) == 2 {
+					if _, isParam := call.Common().Args[1].(*ssa.MakeInterface); isParam {
+						if p, ok := call.Common().Args[1].(*ssa.MakeInterface).X.(*ssa.Parameter); ok && p.Parent() == fn {
+							putters[fn] = true
+						}
+					}
+				}
+			}
+		}
+	}
+	n := 0
+	for _, top := range fns {
+		for _, fn := range core.AllFuncs(top) {
+			if getters[fn] || putters[fn] {
+				continue
+			}
+			for _, b := range fn.Blocks {
+				for _, in := range b.Instrs {
+					obj, ok := in.(ssa.Value)
+					if !ok || !fromPoolGet(obj, 0) {
+						continue
+					}
+					if _, isCall := in.(*ssa.Call); isCall && isPoolCall(in.(*ssa.Call).Common(), "Get") {
+						continue // judged at the type assertion / through the getter
+					}
+					// is it given back in this function?
+					given := false
+					for _, call := range core.Calls(fn) {
+						cc := call.Common()
+						g := cc.StaticCallee()
+						for _, a := range cc.Args {
+							if mi, ok := a.(*ssa.MakeInterface); ok {
+								a = mi.X
+							}
+							if a == obj && (isPoolCall(cc, "Put") || (g != nil && putters[g])) {
+								given = true
+							}
+						}
+					}
+					if !given {
+						continue
+					}
+					n++
+					key := fmt.Sprintf("%s:%s:pool-memory", label, fnKey(fn))
+					// memory lent by the object
+					lent := map[ssa.Value]bool{}
+					var add func(v ssa.Value)
+					add = func(v ssa.Value) {
+						if lent[v] {
+							return
+						}
+						lent[v] = true
+						for _, ref := range *v.Referrers() {
+							switch x := ref.(type) {
+							case *ssa.Slice:
+								add(x)
+							case *ssa.Phi:
+								add(x)
+							case *ssa.ChangeType:
+								add(x)
+							}
+						}
+					}
+					for _, ref := range *obj.Referrers() {
+						if call, ok := ref.(*ssa.Call); ok && len(call.Common().Args) > 0 && call.Common().Args[0] == obj {
+							if _, isSlice := call.Type().Underlying().(*types.Slice); isSlice {
+								add(call)
+							}
+						}
+					}
+					bad := false
+					for v := range lent {
+						for _, ref := range *v.Referrers() {
+							why := ""
+							switch x := ref.(type) {
+							case *ssa.Store:
+								if x.Val == v {
+									if k, root := addrRoot(x.Addr, 0); k != rootLocal {
+										why = "stored into a structure that outlives the call"
+									} else if al, ok := root.(*ssa.Alloc); ok && al.Heap && x.Addr != ssa.Value(al) {
+										why = "stored into a heap object (" + al.Comment + ")"
+									}
+								}
+							case *ssa.Return:
+								why = "returned"
+							case *ssa.MakeInterface:
+								why = "boxed into an interface value"
+							case *ssa.Go:
+								why = "handed to a goroutine"
+							}
+							if why != "" {
+								bad = true
+								r.Fail(key, c.Pos(core.InstrPos(ref)), fmt.Sprintf("memory lent by a pooled object (a slice of its buffer) is %s in %s, but the object goes back to the sync.Pool when the function returns: whoever reads it later sees another request's data", why, fn.Name()))
+							}
+						}
+					}
+					if !bad {
+						r.Pass(fmt.Sprintf("%s: memory of the pooled object stays inside the call", key))
+					}
+				}
+			}
+		}
+	}
+	_ = n
+}
+
+
+// checkSharedReceiversReadOnly (R19.4, S1 part): compiled patterns
+// (ogenregex.Regexp implementations) live in the generated package-level
+// regexMap and validators (package validate) hold them and the shared *big.Rat;
+// every request uses the same objects concurrently. No method of a type of
+// these two packages may write to memory reachable from its receiver — not
+// the receiver's fields (pointer receivers) and not what its fields point to
+// (scratch buffers, caches), including append into a receiver-held slice.
+func checkSharedReceiversReadOnly(c *core.Ctx, r *core.Rule, prog *core.Prog) {
+	scope := map[string]bool{pkgRegex: true, pkgVal: true}
+	an := effects.Analyze(prog, func(f *ssa.Function) bool { return scope[core.FuncPkgPath(f)] })
+	var fns []*ssa.Function
+	var regexpIface *types.Interface
+	if rp := prog.PkgBy[pkgRegex]; rp != nil {
+		if o := rp.Types.Scope().Lookup("Regexp"); o != nil {
+			regexpIface, _ = o.Type().Underlying().(*types.Interface)
+		}
+	}
+	for f := range an.Sum {
+		if f.Signature.Recv() == nil || f.Parent() != nil || !scope[core.FuncPkgPath(f)] {
+			continue
+		}
+		if core.FuncPkgPath(f) == pkgRegex {
+			rt := f.Signature.Recv().Type()
+			if regexpIface == nil || !(types.Implements(rt, regexpIface) || types.Implements(types.NewPointer(rt), regexpIface)) {
+				continue // the converter's parser is a per-call local
+			}
+		}
+		fns = append(fns, f)
+	}
+	sort.Slice(fns, func(i, j int) bool { return fns[i].String() < fns[j].String() })
+	n := 0
+	for _, f := range fns {
+		// setters used while a validator value is being built are value-local: a pointer-receiver method named Set* on
+		// a validator is called on the caller's own local (generated code builds validators per call); what matters
+		// is memory behind the receiver's reference fields, so pointer receivers are judged on deep writes only
+		_, ptrRecv := f.Signature.Recv().Type().(*types.Pointer)
+		n++
+		var bad []string
+		var pos token.Pos
+		for _, e := range an.Sum[f].Effects {
+			if e.Root != effects.Param || e.Index != 0 {
+				continue
+			}
+			// the pattern engines' own methods: their thread-safety is an assumption of C19 (stated), not decided here
+			if strings.HasPrefix(e.Kind, "ext:(*github.com/dlclark/regexp2.Regexp).") || strings.HasPrefix(e.Kind, "ext:(*regexp.Regexp).") {
+				continue
+			}
+			if ptrRecv && e.Kind == "store" && e.Via == core.FuncName(f) && !effectIsDeep(f, e) {
+				continue // assigns its own fields: a builder method on a private value
+			}
+			bad = append(bad, e.String())
+			pos = e.Pos
+		}
+		sort.Strings(bad)
+		key := "shared-receiver-write:" + core.FuncName(f)
+		if len(bad) == 0 {
+			r.Pass(fmt.Sprintf("%s writes nothing reachable from its receiver", core.FuncName(f)))
+		} else {
+			r.Fail(key, c.Pos(pos), fmt.Sprintf("%s writes to memory reachable from its receiver (%s): the object is shared by all requests (package-level pattern table / validator fields), so concurrent calls race and see each other's data", core.FuncName(f), strings.Join(bad, "; ")))
+		}
+	}
+	if n == 0 {
+		r.Undecided("shared-receivers:none", "-", "no methods found in ogenregex / validate")
+	}
+}
+
+// effectIsDeep: the store lands behind a reference held by the receiver (not in the receiver's own fields).
+func effectIsDeep(f *ssa.Function, e effects.Effect) bool {
+	for _, b := range f.Blocks {
+		for _, in := range b.Instrs {
+			st, ok := in.(*ssa.Store)
+			if !ok || st.Pos() != e.Pos {
+				continue
+			}
+			// address = FieldAddr(recv, …) [IndexAddr on array fields] only → shallow
+			a := st.Addr
+			for {
+				switch x := a.(type) {
+				case *ssa.FieldAddr:
+					a = x.X
+					continue
+				case *ssa.IndexAddr:
+					if _, isArr := x.X.Type().Underlying().(*types.Pointer); isArr {
+						a = x.X
+						continue
+					}
+				}
+				break
+			}
+			_, isParam := a.(*ssa.Parameter)
+			return !isParam
+		}
+	}
+	return true
 }
